@@ -46,6 +46,18 @@ func propC04(p *Prog, r *Report) {
 
 func c04DeleteOrder(p *Prog, r *Report, rule string) {
 	fi := p.Func(kCleanDeleteFile)
+	merged := false
+	if fi == nil {
+		merged = true
+		// the per-file removal may have been merged into its caller: the function of the cleaner that removes the
+		// content file is the one whose steps are ordered
+		for _, k := range sortedFuncKeys(p) {
+			c := p.Funcs[k]
+			if c.Decl != nil && c.Decl.Body != nil && shortPath(c.Pkg.PkgPath) == "internal/usecase/cleaner" && len(p.FlatOf(c).CallNodes(kContentDelete)) > 0 {
+				fi = c
+			}
+		}
+	}
 	if fi == nil {
 		r.Undecided(rule, kCleanDeleteFile, "", "cleaner.deleteFile not found")
 		return
@@ -56,8 +68,24 @@ func c04DeleteOrder(p *Prog, r *Report, rule string) {
 		{Name: "content file removed", Keys: []string{kContentDelete}, Tolerated: []string{"is:fs_db.ErrNotFound"}},
 		{Name: "directory re-registered", Keys: []string{kDirAdd}},
 		{Name: "content record deleted", Keys: []string{kCFDelete}},
-		{Name: "version record deleted", Keys: []string{kFileDelete}},
+		{Name: "version record deleted", Keys: []string{kFileDelete}, LastInLoop: merged},
 	})
+}
+
+// cleanerStepFunc: the function of the cleaner that removes one file's content and records: deleteFile, or the
+// function its body was merged into.
+func cleanerStepFunc(p *Prog) *FuncInfo {
+	if fi := p.Func(kCleanDeleteFile); fi != nil {
+		return fi
+	}
+	var res *FuncInfo
+	for _, k := range sortedFuncKeys(p) {
+		c := p.Funcs[k]
+		if c.Decl != nil && c.Decl.Body != nil && shortPath(c.Pkg.PkgPath) == "internal/usecase/cleaner" && len(p.FlatOf(c).CallNodes(kContentDelete)) > 0 {
+			res = c
+		}
+	}
+	return res
 }
 
 func c04WhoMay(p *Prog, r *Report, rule string) {
